@@ -336,6 +336,28 @@ pub fn main(args: &[String]) {
                 }
             }
         }
+        "groundindex" => {
+            // conversion must COMPUTE: f : p (E) -> int applied to x : p (c) with E closed arithmetic and c a literal; accepted iff E
+            // evaluates to c (every operator of the normaliser, negative operands, division toward zero, comparisons)
+            let aops = ["+", "-", "*", "/"];
+            let cops = ["<", "<=", "==", ">", ">="];
+            for _ in 0..count {
+                let small = |r: &mut StdRng| { let v: i64 = r.gen_range(-7..8); if v < 0 { format!("(0 - {})", -v) } else { v.to_string() } };
+                if r.gen_bool(0.7) {
+                    let (a, b, c2) = (small(&mut r), small(&mut r), small(&mut r));
+                    let (o1, o2) = (aops[r.gen_range(0..4)], aops[r.gen_range(0..4)]);
+                    let e = match r.gen_range(0..3) { 0 => format!("{a} {o1} {b}"), 1 => format!("({a} {o1} {b}) {o2} {c2}"), _ => format!("- ({a} {o1} {b})") };
+                    let guess: i64 = r.gen_range(-12..13);
+                    let lit_ = if guess < 0 { format!("(0 - {})", -guess) } else { guess.to_string() };
+                    emit(format!("(p : int -> type) => (f : p ({e}) -> int) => (x : p ({lit_})) => f x"), "groundindex");
+                } else {
+                    let (a, b) = (small(&mut r), small(&mut r));
+                    let o = cops[r.gen_range(0..5)];
+                    let guess = if r.gen_bool(0.5) { "true" } else { "false" };
+                    emit(format!("(q : bool -> type) => (f : q ({a} {o} {b}) -> int) => (x : q {guess}) => f x"), "groundindex");
+                }
+            }
+        }
         "crossop" => {
             // two type-level conditionals that differ only in the comparison operator: convertible only if the checker confuses them
             let ops = ["<", "<=", "==", ">", ">="];
